@@ -2,6 +2,7 @@
 import json
 import random
 
+import os
 import vcommon as v
 import crashengine as ce
 
@@ -65,10 +66,29 @@ def run(tier, seed):
         "samples": ce.sample_of(traces[0]) if traces else [],
         "acknowledged_flushes": st["flushes"], "refill_scenarios": refills,
     }
+    # "flush acknowledged" is a quiescent point for every worker schedule: while another thread's flush still
+    # has the retirements in hand (a reader holds the superseded generation), no flush() may return Ok with
+    # free + live blocks short of the data area (FlushAckComplete, LinTrace; directed schedules)
+    import concengine as cc
+    from checks.c07 import collect
+    cst = {"traces": 0, "states": 0, "transitions": 0, "schedules": 0, "stalls": 0, "events": 0}
+    fam = cc.ack_flush_family()
+    if tier == "quick":
+        fam = [x for x in fam if "_multi_range_" in x[0] or "_single_get_" in x[0]]
+    res = cc.run_dfs(fxv, rd, fam, "ackflush", chunk=3, maxsched=4, preempt=3, par=8)
+    collect(PROP, res, rd, ["FlushAckComplete"], viol, cst)
+    cov["ack_flush_schedules"] = cst["schedules"]
     viol = mc_viol + viol
     return {"level": "model_checking", "coverage": cov, "violations": viol,
             "assumptions": ["snapshot accessor (hook) exposes live records' sector/length and the free runs"]}
 
 
 def replay(path):
+    if os.path.basename(path).startswith("ackflush_"):
+        import concengine as cc
+        r = cc.validate(v.run_dir("c05_replay"), path, ["FlushAckComplete"])
+        if r.violation:
+            print("VIOLATION property=%s replay=%s" % (PROP, path))
+            return 1
+        return 0
     return ce.replay(PROP, path, INV)
